@@ -53,7 +53,10 @@ type tcase struct {
 	// when set: the address the session was created with; local was assigned
 	// during negotiation (as resource binding does), origin is somebody else's now
 	origin jid.JID
-	items  []item
+	// "" ready-made session; "initiated" / "received": established through the
+	// library's default negotiator (addresses learned from the headers)
+	negotiated string
+	items      []item
 	// the application has closed its output stream before the peer's input is
 	// served: replies cannot be written any more, the framing must not change
 	outputClosed bool
@@ -76,6 +79,11 @@ func genConstruct(t *rapid.T, nested bool) *construct {
 			var sb strings.Builder
 			_ = xml.EscapeText(&sb, []byte(c.text))
 			c.raw += `<text xmlns="urn:ietf:params:xml:ns:xmpp-streams">` + sb.String() + `</text>`
+		}
+		if rapid.IntRange(0, 2).Draw(t, "appcond") == 0 {
+			// an application-specific condition may follow (RFC 6120 4.9.2): the
+			// error is still the defined condition
+			c.raw += rapid.SampledFrom([]string{`<escape-your-data xmlns="http://example.org/ns"/>`, `<too-many-sessions xmlns="urn:verif:app">3</too-many-sessions>`, `<conflict xmlns="urn:verif:app"/>`}).Draw(t, "appcondel")
 		}
 		c.raw += `</stream:error>`
 	case "restart":
@@ -145,6 +153,8 @@ func genCase(t *rapid.T) tcase {
 	tc.local = jid.MustParse(rapid.SampledFrom([]string{"test@example.net", "me@example.net/res", "example.org", "a.b@c.example/r1"}).Draw(t, "local"))
 	if rapid.IntRange(0, 2).Draw(t, "addrAssigned") == 0 {
 		tc.origin = jid.MustParse(rapid.SampledFrom([]string{"example.net", "old@example.com", "test@example.org/x"}).Draw(t, "origin"))
+	} else if rapid.IntRange(0, 2).Draw(t, "negotiatedSession") == 0 {
+		tc.negotiated = rapid.SampledFrom([]string{"initiated", "received"}).Draw(t, "negotiatedRole")
 	}
 	ns := stanza.NSClient
 	if tc.s2s {
@@ -228,7 +238,7 @@ func (tc tcase) input() string {
 
 func (tc tcase) String() string {
 	var sb strings.Builder
-	fmt.Fprintf(&sb, "s2s=%v local=%s (session created as %q) output-closed-first=%v input=%q progs=[", tc.s2s, tc.local, tc.origin.String(), tc.outputClosed, tc.input())
+	fmt.Fprintf(&sb, "s2s=%v local=%s (session created as %q, negotiated=%q) output-closed-first=%v input=%q progs=[", tc.s2s, tc.local, tc.origin.String(), tc.negotiated, tc.outputClosed, tc.input())
 	for _, it := range tc.items {
 		if it.kind == "elem" {
 			fmt.Fprintf(&sb, "%s:%d:%d ", it.prog.mode, it.prog.k, it.prog.extra)
@@ -327,7 +337,7 @@ func check(t interface {
 		t.Helper()
 		ev.Failf(t, "%s\n%s", tc.String(), fmt.Sprintf(format, args...))
 	}
-	opts := wire.SessionOpts{Local: tc.local, Origin: tc.origin}
+	opts := wire.SessionOpts{Local: tc.local, Origin: tc.origin, Negotiated: tc.negotiated}
 	if tc.s2s {
 		opts.State |= xmpp.S2S
 	}
@@ -533,6 +543,9 @@ func classify(tc tcase) (nontrivial bool, classes []string) {
 	}
 	if !tc.origin.Equal(jid.JID{}) {
 		classes = append(classes, "address-assigned-during-negotiation")
+	}
+	if tc.negotiated != "" {
+		classes = append(classes, "session-negotiated-"+tc.negotiated)
 	}
 	return (elems >= 2 && partial >= 1) || nested >= 1, classes
 }
